@@ -3,7 +3,7 @@
 ENGINES = [
     {'name': 'explore', 'path': 'lib/vt/explore.py',
      'serves_properties': ['C01', 'C02', 'C03', 'C04', 'C06', 'C07',
-                           'C08', 'C09', 'C10', 'C11', 'C14',
+                           'C08', 'C09', 'C11', 'C14',
                            'C15', 'C17', 'C18', 'C19', 'C20'],
      'kind_free_text': 'bounded exhaustive enumeration driver: shards a finite '
                        'case space over 16 long-lived workers, runs the real '
@@ -16,6 +16,26 @@ NOTES = ('Every check executes the implementation in /repo/src (working tree) '
          'DESIGN.md.')
 
 CHECKS = [
+    {'id': 'C10', 'engine': 'explore', 'level': 'exploration',
+     'design_ref': 'DESIGN.md §4 C10',
+     'technique': 'exhaustive small-scope enumeration of all labelled layer '
+                  'DAGs x subsets x input orders on the real order_by_bases / '
+                  'ordered_layers, end-to-end header and execution sequences, '
+                  'and result digests across PYTHONHASHSEED values',
+     'text': 'Every labelled DAG with ordered bases on <=4 named layers (class '
+             'and instance kinds, every subset, every input order) and all '
+             '487656 labelled DAGs on 5 layers (instance kind; full set and '
+             'every 3-subset, two input orders; thorough: all subsets, class '
+             'kind too) is ordered by the real function: the result must be a '
+             'permutation of the subset, never put a layer before one of its '
+             'bases, and not depend on input order. For n<=3 the same holds '
+             'through Runner.ordered_layers() with the unit layer first for '
+             'every insertion order, the header sequence and the executed '
+             'layer sequence of real runs (also when all later layers are '
+             'resumed in children) equal it, and digests agree across hash '
+             'seeds.',
+     'note': 'More than 5 layers are outside the bound; names are single '
+             'letters.'},
     {'id': 'C08', 'engine': 'explore', 'level': 'exploration',
      'design_ref': 'DESIGN.md §4 C08',
      'technique': 'exhaustive small-scope enumeration of pattern lists x names '
